@@ -213,6 +213,15 @@ func init() {
 		Gen: func(r *gen.R, idx int) []run.Case {
 			malformed := r.P(20)
 			doc := r.Doc(3, false, !r.P(10))
+			if r.P(15) {
+				// a document-valued _id holding arrays (overlays below _id must not reach the stored _id)
+				id := bson.D{{Key: "k", Value: r.Arr(1, false)}, {Key: "n", Value: r.SmallNumber()}}
+				if len(doc) > 0 && doc[0].Key == "_id" {
+					doc[0].Value = id
+				} else {
+					doc = append(bson.D{{Key: "_id", Value: id}}, doc...)
+				}
+			}
 			proj := Projection(r, doc, malformed)
 			req := `{"op":"project","d":` + vj.Enc(doc) + `,"p":` + vj.Enc(proj) + `}`
 			stored := bsonkit.Clone(&doc)
@@ -272,6 +281,39 @@ func init() {
 				res, err := mongokit.Project(bsonkit.Clone(&d), &proj)
 				if err == nil && !isSubValue(*res, doc, "", opPaths) {
 					viols = append(viols, run.Violation{Property: "C14", What: "result holds a value that is not the stored value at that path", Witness: "project-foreign-value", Req: req, Detail: vj.Enc(*res)})
+				}
+			}
+			// inclusion mode (an inclusion flag or $elemMatch present): the result holds _id and requested paths only
+			if ok && !malformed && inDomain {
+				inclusion := false
+				requested := map[string]bool{"_id": true}
+				for _, e := range proj {
+					requested[strings.SplitN(e.Key, ".", 2)[0]] = true
+					switch v := e.Value.(type) {
+					case bson.D:
+						if len(v) > 0 && v[0].Key == "$elemMatch" {
+							inclusion = true
+						}
+					case bool:
+						if v && e.Key != "_id" {
+							inclusion = true
+						}
+					default:
+						if e.Key != "_id" && bsonkit.Compare(v, int64(1)) == 0 {
+							inclusion = true
+						}
+					}
+				}
+				if inclusion {
+					d := doc
+					if res, err := mongokit.Project(bsonkit.Clone(&d), &proj); err == nil {
+						for _, e := range *res {
+							if !requested[e.Key] {
+								c.Viols = append(viols, run.Violation{Property: "C14", What: "inclusion-style projection returns a field that was not requested", Witness: "project-extra-field", Req: req, Detail: e.Key})
+								return []run.Case{c}
+							}
+						}
+					}
 				}
 			}
 			c.Viols = viols
